@@ -159,12 +159,24 @@ def run(ctx):
     defs = {"SM": "spec_accepts_strict"}
     if ctx.model_ok:
         defs["MM"] = "model_agrees"
+        # indexes at which the MODEL says the cut flush has a structural change in flight (torn_disk = None)
+        defs["US"] = ("fun c => negb (existsb (fun o => match o with HOut (OBerr EUnmodelled) => true | _ => false end) "
+                      "(run_h init_sys (fst c)))")
     okc, res, lg = vlib.run_coq_cases("c04", hist.HEADER, terms, "hcase", defs, shard=60)
     if not okc:
         raise RuntimeError("coq evaluation failed: " + lg[-3000:])
     mm, sm = set(res.get("MM", [])), set(res["SM"])
     out = {"spec_violations": [], "model_mismatches": [], "known": [],
            "correspondence_name": "EvTornFlush (Model/Engine.v torn_disk + recover) vs recovery of the torn image"}
+    if ctx.model_ok:
+        # F15 covers a flush that is structural by what the statements since the last completed flush did (the model's
+        # cache differs from its file in more than leaf contents) AND by what the real flush changed (a new page or an
+        # internal node). A flush the model calls in-place whose real dirty set holds an internal node is in scope:
+        # a loss there is a violation, not the recorded finding.
+        us = set(res.get("US", []))
+        for i, c in enumerate(cases):
+            c[2]["structural_observed"] = c[2]["structural"]
+            c[2]["structural"] = c[2]["structural"] and i in us
     inscope = [i for i, c in enumerate(cases) if not c[2]["structural"]]
     struct_cases = [i for i, c in enumerate(cases) if c[2]["structural"]]
     known = [i for i in struct_cases if i in sm]
